@@ -36,9 +36,16 @@ func corpusSteps(n *Node) []Step {
 	if !a.HasHead {
 		return []Step{Run("init")}
 	}
-	steps := []Step{Run("add", "a"), Run("add", "d"), Run("add", "."), Run("rm", "a"), Run("commit", "-m", "m"), Run("branch", "b2"), Run("branch", "-r", "t"), Run("branch", "-d", "b"),
+	if len(a.Index) > 500 && n.Depth >= 1 {
+		return nil
+	}
+	if len(a.Index) > 500 {
+		// a staging area of more than 64 KiB: only the commands that rewrite it
+		return []Step{Run("add", "n"), Run("rm", fmt.Sprintf("huge/%s-%04d.txt", strings.Repeat("x", 100), 1)), Run("reset", "--mixed", "HEAD@{1}"), Run("commit", "-m", "m")}
+	}
+	steps := []Step{Run("add", "a"), Run("add", "d"), Run("add", "."), Run("rm", "a"), Run("commit", "-m", "m"), Run("branch", "b2"), Run("branch", strings.Repeat("L", 253)), Run("branch", "-r", "t"), Run("branch", "-d", "b"),
 		Run("switch", "b"), Run("switch", "main"), Run("switch", "-c", "c"), Run("reset", "--soft", "HEAD@{1}"), Run("reset", "--mixed", "HEAD@{1}"), Run("reset", "--hard", "HEAD@{1}"),
-		Run("restore", "a"), Run("restore", "--staged", "a"), Run("rm", "d"), Run("restore", "d"), Run("restore", "--staged", "d"), Run("config", "user.name", "X Y"), Run("config", "--global", "user.name", "G"), Run("write-tree"), Write("a", fmt.Sprintf("edit %d\n", len(a.Objects)))}
+		Run("restore", "a"), Run("restore", "--staged", "a"), Run("rm", "d"), Run("restore", "d"), Run("restore", "--staged", "d"), Run("config", "user.name", "X Y"), Run("config", "--global", "user.name", "G"), Run("config", "core."+strings.Repeat("k", 6000), "v"), Run("write-tree"), Write("a", fmt.Sprintf("edit %d\n", len(a.Objects)))}
 	if tip := a.Tip(); tip != "" {
 		steps = append(steps, Run("update-ref", "refs/heads/b", tip))
 		steps = append(steps, Run("cat-file", "-p", tip))
@@ -56,7 +63,18 @@ func corpusSeeds() []Seed {
 	return []Seed{{"empty", nil}, {"S0", seedS0()}, {"S1", seedS1()}, {"S2", seedS2()}, {"S3", seedS3()},
 		{"S1+edit", append(seedS1(), Write("a", "a edited\n"), Write("d/x", "d/x edited\n"), Write("n", "new\n"))},
 		{"S1+ignore", append(seedS1(), Write(".goitignore", "build/\n*.log\n"), Write("build/o", "o\n"), Write("x.log", "l\n"), Write("n", "new\n"))},
-		{"chain45", seedChain(45)}}
+		{"chain45", seedChain(45)},
+		{"index-over-64KiB", bigIndexSeed()}}
+}
+
+// bigIndexSeed: 700 tracked files with names of about 110 bytes (the staging-area file exceeds 64 KiB), two commits.
+func bigIndexSeed() []Step {
+	steps := seedS0()
+	for i := 0; i < 700; i++ {
+		steps = append(steps, Write(fmt.Sprintf("huge/%s-%04d.txt", strings.Repeat("x", 100), i), fmt.Sprintf("content %d\n", i)))
+	}
+	steps = append(steps, Run("add", "huge"), Run("commit", "-m", "c1"), Write("a", "a\n"), Run("add", "a"), Run("commit", "-m", "c2"), Write("n", "new\n"))
+	return steps
 }
 
 type c15Counters struct {
